@@ -21,6 +21,9 @@ def gen_history(rng, thorough):
     seq = [0]
     mid = [500]
     refs = rng.sample(range(1, 200), nmsg)
+    if rng.random() < 0.35:
+        # the 8-bit reference comes round again while older messages are still unanswered or wait for receipts
+        refs = [rng.choice([0, 7, 255]) for _ in range(nmsg)]
 
     def nu():
         uid[0] += 1
@@ -165,7 +168,7 @@ def oracle(history, obs):
             _k, uid, sq, log, sar = ev
             logs[sq] = (log, sar)
             if sar[2] > 0:
-                g = groups.setdefault(sar[0], {'k': sar[2], 'log': log, 'rcpt': {}, 'acc': set(), 'bad': False, 'answered': set()})
+                g = groups.setdefault(log, {'k': sar[2], 'log': log, 'rcpt': {}, 'acc': set(), 'bad': False, 'answered': set()})
     i = -1
     store = {}
     for ev in history:
@@ -178,19 +181,19 @@ def oracle(history, obs):
             if sq in logs and cmd == 0x80000004:
                 log, sar = logs[sq]
                 if sar[2] > 0:
-                    groups[sar[0]]['answered'].add(sar[1])
+                    groups[log]['answered'].add(sar[1])
                 if status == 0:
                     store[mid] = sq
                     if sar[2] > 0:
-                        groups[sar[0]]['acc'].add(sar[1])
+                        groups[log]['acc'].add(sar[1])
                 elif sar[2] > 0:
-                    groups[sar[0]]['bad'] = True
+                    groups[log]['bad'] = True
                 logs.pop(sq)
             elif sq in logs:
                 log, sar = logs.pop(sq)
                 if sar[2] > 0:
-                    groups[sar[0]]['bad'] = True
-                    groups[sar[0]]['answered'].add(sar[1])
+                    groups[log]['bad'] = True
+                    groups[log]['answered'].add(sar[1])
             continue
         _k, uid, mid, err, how = ev
         if how == 'none' or mid not in store:
@@ -208,7 +211,7 @@ def oracle(history, obs):
             if o[0] != 2 or o[2] != log or o[1] != uid:
                 return f'receipt for message id {mid} (log {log}) reached the hook as {o}'
             continue
-        g = groups[sar[0]]
+        g = groups[log]
         g['rcpt'][sar[1]] = (err, uid)
         fully_accepted = len(g['acc']) == g['k'] and not g['bad']
         if fully_accepted:
@@ -238,7 +241,7 @@ def oracle(history, obs):
     for ref, g in groups.items():
         if len(g['acc']) != g['k'] or g['bad']:
             continue
-        seqs = [e[2] for e in history if e[0] == 'put' and e[4][0] == ref and e[4][2] > 0]
+        seqs = [e[2] for e in history if e[0] == 'put' and e[3] == g['log'] and e[4][2] > 0]
         gm = [m_ for m_, sq in mids.items() if sq in seqs]
         idxs = [first_rcpt[m_] for m_ in gm if m_ in first_rcpt]
         hits = [j for j, o in enumerate(obs) if o[0] == 2 and o[2] == g['log']]
@@ -290,7 +293,7 @@ def run(ctx):
             flat += [int(k), uid_of_seq[int(k)]]
         flat += [-8] + [int(k) for k in c._segment_store._data.keys()] + [-9]
         for k, ss in c._segment_status_store._data.items():
-            flat += [int(k)]
+            flat += [core.status_key(k)]
             for a, b in ss.status.items():
                 flat += [int(a), b]
             flat += [-1]
@@ -326,7 +329,7 @@ def run(ctx):
                        f'{order} reach the hook for message {log} at receipt positions {hits}, expected exactly one at {last_of[log]}')
                 break
         if msg:
-            ctx.violation(msg, {'finding_key': 'reference-reuse-while-receipts-pending', 'function': 'history', 'history': [list(e) for e in hist]})
+            ctx.violation(msg, {'function': 'history', 'history': [list(e) for e in hist]})
     if proved or not getattr(ctx, 'build_failing', None):
         bad, errs = core.run_cases('C02', 'handlers', IMPORTS, 'fun evs : list hevent => ser_hrun evs', cases, shard=120)
         for fnm, out in errs:
